@@ -74,7 +74,15 @@ def is_noeffect(e):
 def gen_A(rng, mode, kind):
     prof = profile_for(mode, kind)
     if mode != "C20":
-        return gen_execution(rng, kind, prof), None
+        a = gen_execution(rng, kind, prof)
+        if mode == "C18" and kind in ("utmap", "utset"):
+            # an empty range call on ut_map/ut_set still purges (C17); its expansion into zero single
+            # calls does not, which shows in size() between calls: not a difference C18 is about
+            def empty_range(ln):
+                t = ln.split()
+                return (t[0] in ("insr", "findr", "findf") and t[3] == "0") or (t[0] == "erar" and t[2] == "0")
+            a = [ln for ln in a if not empty_range(ln)]
+        return a, None
     cfg = gen_cfg(rng, kind, prof)
     pre = gen_execution(rng, kind, prof, cfg)[1:-1]
     cont = gen_execution(rng, kind, prof, cfg)[1:-1]
